@@ -1284,16 +1284,16 @@ Lemma block_step : forall K sd sm s1 t c,
   exists s', replay_doc O (rev (restore_block sm t c (delta_of sm t c))) s1 = Ok s' /\ near ((t, c) :: K) sd sm s'.
 Proof.
   intros K sd sm s1 t c Hnear Hwf Hbef Hlive.
-  set (cd := delta_of sm t c). set (rows := restore_rows sm t c cd).
-  assert (Hrows_delta : forall r, In r rows -> delta_get O cd r <> None) by (intros r Hr; eapply restore_rows_delta; exact Hr).
+  set (cd := delta_of sm t c). remember (restore_rows sm t c cd) as rows eqn:Hrowsdef.
+  assert (Hrows_delta : forall r, In r rows -> delta_get O cd r <> None) by (intros r Hr; rewrite Hrowsdef in Hr; eapply restore_rows_delta; exact Hr).
   (* what `near` must say for column (t, c) once its block is replayed, given a table that agrees on that column *)
   assert (Hfine : forall Td Cd (C : column) r b a,
             find_table O sd t = Some Td -> find_col O (t_cols O Td) c = Some Cd -> In r (t_rows O Td) ->
             c_info O C = c_info O Cd -> delta_get O cd r = Some (b, a) -> ~ In r rows ->
             venc O (col_get O C r) (vnorm O (ci_type (c_info O C)) a) = true ->
             created sm t c r \/ venc O (col_get O C r) (col_get O Cd r) = true).
-  { intros. eapply unrestored_row_fine; eassumption. }
-  unfold restore_block. fold cd. fold rows.
+  { intros Td Cd C r b a H1 H2 H3 H4 H5 H6 H7. rewrite Hrowsdef in H6. eapply unrestored_row_fine; eassumption. }
+  unfold restore_block. fold cd. rewrite <- Hrowsdef. clear Hrowsdef.
   assert (Hnil : rows = [] \/ rows <> []) by (destruct rows; [left | right]; congruence).
   destruct Hnil as [Hnil|Hne].
   - rewrite Hnil. cbn. exists s1. split; [reflexivity|].
@@ -1308,9 +1308,8 @@ Proof.
       * destruct (Hfine Td Cd C r b a Efd Ecd (proj1 (Hr r) Hin) Hi Hd) as [H2|H2]; [rewrite Hnil; intros [] | exact Hv | left; exact H2 | right; left; exact H2].
       * right. right. split; [apply near_mono_cell; [exact Hn | congruence]|]. eauto.
     + right. right. split; [apply near_mono_cell; [exact Hn | congruence]|]. eauto.
-  - rewrite (match_nonnil _ _ rows _ _ Hne).
-    (* the table and the column exist *)
-    destruct rows as [|r0 rows0] eqn:Erows; [contradiction|]. rewrite <- Erows in *. clear Hne.
+  - (* the table and the column exist *)
+    destruct rows as [|r0 rows0] eqn:Erows; [contradiction|]. cbv beta iota. rewrite <- Erows in *. clear Hne.
     assert (Hr0 : In r0 rows) by (rewrite Erows; left; reflexivity).
     destruct (Hlive t c r0 (Hrows_delta r0 Hr0)) as [Td [Cd [Efd [Ecd _]]]].
     pose proof (Hnear t) as Hnt. rewrite Efd in Hnt.
@@ -1331,7 +1330,7 @@ Proof.
       assert (Td' = Td) by congruence. subst Td'. exact Hin'. }
     assert (Hne : rows <> []) by (rewrite Erows; discriminate).
     destruct (apply_BulkUpdate_ok O s1 t T rows [(c, vals)] Ef1 Hok Hne Hall) as [cs [u' [Hcs Hstep]]].
-    { intros c0 [<-|[]]. rewrite Ec1. discriminate. }
+    { intros c0 [Hc0|[]]. cbn in Hc0. subst c0. rewrite Ec1. discriminate. }
     cbn [rev app replay_doc]. unfold update_action. fold vals. rewrite Hstep. cbn [bind fst].
     eexists. split; [reflexivity|].
     assert (Hndc : nodup_names (map fst [(c, vals)]) = true) by reflexivity.
@@ -1365,6 +1364,88 @@ Proof.
       destruct Hc1 as [Hi1 Hcells1]. split; [exact Hi1|]. intros r Hin.
       destruct (Hcells1 r Hin) as [H1|[H1|[Hn [b [a [Hd Hv]]]]]]; [left; exact H1 | right; left; exact H1|].
       right. right. split; [apply near_mono_cell; [exact Hn | congruence]|]. eauto.
+Qed.
+
+
+(* ------------------------------------------------------------------------------------------------ *)
+(* all blocks of the flush *)
+
+Lemma td_find_in : forall l t d, td_find O l t = Some d -> In t (map fst l).
+Proof.
+  induction l as [|[t0 d0] l IH]; intros t d H; cbn in *; [discriminate|].
+  name_cases t t0; [left; congruence | right; eapply IH; exact H].
+Qed.
+
+Lemma cd_find_in : forall l c d, cd_find O l c = Some d -> In c (map fst l).
+Proof.
+  induction l as [|[c0 d0] l IH]; intros c d H; cbn in *; [discriminate|].
+  name_cases c c0; [left; congruence | right; eapply IH; exact H].
+Qed.
+
+Lemma cols_block_eq : forall (sm : summary) t td keys,
+  td_find O (sm_tables O sm) t = Some td ->
+  cols_block sm t td keys = flat_map (fun c => restore_block sm t c (delta_of sm t c)) keys.
+Proof.
+  intros sm t td keys Htd. unfold cols_block. induction keys as [|c keys IH]; cbn; [reflexivity|].
+  rewrite IH. f_equal. unfold delta_of. rewrite Htd.
+  destruct (cd_find O (td_deltas O td) c); [reflexivity | rewrite restore_block_nil; reflexivity].
+Qed.
+
+Lemma replay_cols : forall sd sm t keys K s1,
+  near K sd sm s1 -> wf_state O sd -> befores_ok sd sm -> live_in sd sm ->
+  exists s', replay_doc O (rev (flat_map (fun c => restore_block sm t c (delta_of sm t c)) keys)) s1 = Ok s' /\
+             near (map (pair t) keys ++ K) sd sm s'.
+Proof.
+  intros sd sm t keys. induction keys as [|c keys IH]; intros K s1 Hn Hwf Hb Hl; cbn [flat_map map app].
+  - exists s1. split; [reflexivity | exact Hn].
+  - rewrite rev_app_distr, (replay_doc_app O).
+    destruct (IH K s1 Hn Hwf Hb Hl) as [s2 [Hr2 Hn2]]. rewrite Hr2.
+    destruct (block_step _ sd sm s2 t c Hn2 Hwf Hb Hl) as [s3 [Hr3 Hn3]].
+    exists s3. split; [exact Hr3 | exact Hn3].
+Qed.
+
+Definition table_pairs (sm : summary) (t : name) : list (name * name) :=
+  match td_find O (sm_tables O sm) t with
+  | Some td => map (pair t) (sorted_keys (td_deltas O td))
+  | None => []
+  end.
+
+Lemma replay_tables : forall sd sm tkeys K s1,
+  near K sd sm s1 -> wf_state O sd -> befores_ok sd sm -> live_in sd sm ->
+  exists s', replay_doc O (rev (flat_map (table_block sm) tkeys)) s1 = Ok s' /\
+             near (flat_map (table_pairs sm) tkeys ++ K) sd sm s'.
+Proof.
+  intros sd sm tkeys. induction tkeys as [|t tkeys IH]; intros K s1 Hn Hwf Hb Hl; cbn [flat_map app].
+  - exists s1. split; [reflexivity | exact Hn].
+  - rewrite rev_app_distr, (replay_doc_app O).
+    destruct (IH K s1 Hn Hwf Hb Hl) as [s2 [Hr2 Hn2]]. rewrite Hr2.
+    unfold table_block, table_pairs. destruct (td_find O (sm_tables O sm) t) as [td|] eqn:Etd.
+    + rewrite (cols_block_eq sm t td _ Etd).
+      destruct (replay_cols sd sm t (sorted_keys (td_deltas O td)) _ s2 Hn2 Hwf Hb Hl) as [s3 [Hr3 Hn3]].
+      exists s3. split; [exact Hr3|]. rewrite <- app_assoc. exact Hn3.
+    + exists s2. split; [reflexivity | exact Hn2].
+Qed.
+
+Lemma all_pairs_cover : forall (sm : summary) t c r,
+  delta_get O (delta_of sm t c) r <> None ->
+  In (t, c) (flat_map (table_pairs sm) (sorted_keys (sm_tables O sm)) ++ []).
+Proof.
+  intros sm t c r H. rewrite app_nil_r. unfold delta_of in H.
+  destruct (td_find O (sm_tables O sm) t) as [td|] eqn:Etd; [|cbn in H; congruence].
+  destruct (cd_find O (td_deltas O td) c) as [cd|] eqn:Ecd; [|cbn in H; congruence].
+  apply in_flat_map. exists t. split.
+  - unfold sorted_keys. apply sort_by_In. eapply td_find_in. exact Etd.
+  - unfold table_pairs. rewrite Etd. apply in_map. unfold sorted_keys. apply sort_by_In. eapply cd_find_in. exact Ecd.
+Qed.
+
+Theorem replay_all_blocks : forall sd sm s1,
+  near [] sd sm s1 -> wf_state O sd -> befores_ok sd sm -> live_in sd sm ->
+  exists s', replay_doc O (rev (all_blocks sm)) s1 = Ok s' /\ seq_ex O (created sm) s' sd.
+Proof.
+  intros sd sm s1 Hn Hwf Hb Hl.
+  destruct (replay_tables sd sm (sorted_keys (sm_tables O sm)) [] s1 Hn Hwf Hb Hl) as [s' [Hr Hn']].
+  exists s'. split; [exact Hr|]. eapply near_final; [exact Hn'|].
+  intros t c r H. eapply all_pairs_cover. exact H.
 Qed.
 
 End Calc.
